@@ -510,6 +510,37 @@ theorem nodeAt_some_lt (d : List Nat) (p : Nat) (h : (nodeAt d p).isSome = true)
           · cases hr
         · cases he
 
+/-- **every paint the closure dispatches is a node of the graph**: a child / layer / base-glyph paint
+that resolves (`resolvePaint … = ok`) has a node at its position — the `none` arm of the model's
+`dispatch` is not reachable on table bytes. -/
+theorem resolvePaint_node (d : List Nat) (base off fmt q : Nat) (h : resolvePaint d base off = .ok (fmt, q)) :
+    (nodeAt d q).isSome = true := by
+  unfold resolvePaint at h
+  split at h
+  · cases h
+  · split at h
+    · cases h
+    · split at h
+      · cases h
+      · rename_i f hf
+        injection h with h; injection h with h1 h2
+        subst h2
+        unfold nodeAt
+        rw [hf]
+        simp only []
+        unfold paintRead at hf
+        split at hf
+        · cases hf
+        · split at hf
+          · cases hf
+          · rename_i sz hsz
+            split at hf
+            · injection hf with hf
+              subst hf
+              rw [hsz]
+              rfl
+            · cases hf
+
 theorem graphOf_layersU8 (t : Colr) (hb : Bytes t.d) : LayersU8 (graphOf t) := by
   intro p num first h
   have h : nodeAt t.d p = some (.layers num first) := h
